@@ -16,6 +16,8 @@ def rest_text(kw, rest):
         elif c == "L":
             out.append(LETTERS[nl % len(LETTERS)])
             nl += 1
+        elif c == "Lc":
+            out.append(LETTERS[(nl - 1) % len(LETTERS)].swapcase())
         elif c == "U":
             out.append("_")
         elif c == "D":
@@ -106,7 +108,9 @@ class FileBuilder:
                 site = ("typeDoc", "funcDoc", "methodDoc")[n % 3]
             else:
                 site = "typeDoc"
-        if site == "typeDoc":
+        if exp and exp != "unspec" and exp[0] == "mutable":
+            exp = ("mutable", ("F", "G") if site == "fieldDocImmMulti" else ("F",))
+        if site in ("typeDoc", "typeDocCaseTwins"):
             L += [text, "type %s struct{ F int }" % name, ""]
         elif site == "groupDoc":
             L += [text, "type (", "\t%s struct{ F int }" % name, ")", ""]
@@ -124,6 +128,9 @@ class FileBuilder:
         elif site == "fieldDocImm":
             item = "field"
             L += ["// @immutable", "type %s struct {" % name, "\t" + text, "\tF int", "}", ""]
+        elif site == "fieldDocImmMulti":
+            item = "field"
+            L += ["// @immutable", "type %s struct {" % name, "\t" + text, "\tF, G int", "}", ""]
         elif site == "fieldDocPlain":
             item = "field"
             L += ["type %s struct {" % name, "\t" + text, "\tF int", "}", ""]
@@ -182,8 +189,11 @@ def observed(result, pkgpath):
         add(a["OnType"], ("immutable", ()))
     for a in ann.get("TestonlyAnnotations") or []:
         add(a["ObjectName"], ("testonly", ()))
+    mut = {}
     for a in ann.get("MutableAnnotations") or []:
-        add(a["OnType"], ("mutable", ()))
+        mut.setdefault(a["OnType"], set()).add(a["FieldName"])
+    for t, fields in mut.items():
+        add(t, ("mutable", tuple(sorted(fields))))
     for a in ann.get("PackageOnlyAnnotations") or []:
         add(a["ObjectName"], ("packageonly", tuple((a["AllowedPackages"] or [])[1:])))
     return out
